@@ -17,17 +17,17 @@ REGISTRY = {
 
 PLAN = {
     "C08": [{"engine": "nuts", "level": "exploration",
-             "quick": {"runs": 480, "budget_s": 240}, "thorough": {"runs": 20000, "budget_s": 3000}}],
+             "quick": {"runs": 1500, "budget_s": 240}, "thorough": {"runs": 20000, "budget_s": 3000}}],
     "C11": [{"engine": "objhist", "level": "exploration",
-             "quick": {"runs": 400, "budget_s": 240}, "thorough": {"runs": 20000, "budget_s": 3000}}],
+             "quick": {"runs": 600, "budget_s": 240}, "thorough": {"runs": 20000, "budget_s": 3000}}],
     "C01": [{"engine": "objhist", "level": "exploration",
-             "quick": {"runs": 400, "budget_s": 240}, "thorough": {"runs": 20000, "budget_s": 3000}}],
+             "quick": {"runs": 600, "budget_s": 240}, "thorough": {"runs": 20000, "budget_s": 3000}}],
     "C05": [{"engine": "streams", "level": "exploration",
-             "quick": {"runs": 2000, "budget_s": 240}, "thorough": {"runs": 100000, "budget_s": 3000}}],
+             "quick": {"runs": 3000, "budget_s": 240}, "thorough": {"runs": 100000, "budget_s": 3000}}],
     "C09": [{"engine": "gibbs", "level": "exploration",
-             "quick": {"runs": 600, "budget_s": 240}, "thorough": {"runs": 30000, "budget_s": 3000}}],
+             "quick": {"runs": 1000, "budget_s": 240}, "thorough": {"runs": 30000, "budget_s": 3000}}],
     "C14": [{"engine": "chain", "level": "fault_enumeration",
-             "quick": {"runs": 2000, "budget_s": 300}, "thorough": {"runs": 60000, "budget_s": 3000}}],
+             "quick": {"runs": 2500, "budget_s": 300}, "thorough": {"runs": 60000, "budget_s": 3000}}],
     "C02": [{"engine": "mhkernel", "level": "exploration",
-             "quick": {"runs": 1500, "budget_s": 240}, "thorough": {"runs": 60000, "budget_s": 3000}}],
+             "quick": {"runs": 2500, "budget_s": 240}, "thorough": {"runs": 60000, "budget_s": 3000}}],
 }
